@@ -468,6 +468,14 @@ func (s *Service) stopRunnablePipeline(ctx context.Context, rp *runnablePipeline
 			// Keep the marker: without it the cleanup goroutine treated the
 			// failure as spontaneous and restarted the pipeline the user had
 			// just been told was stopping.
+			//
+			// The cleanup goroutine may already be past its look at the
+			// marker (it found it unset and chose recovery, but has not yet
+			// announced StatusRecovering, so Stop did not see that status
+			// either): cancel the restart it is about to wait for as well.
+			if rp.recoveryStop != nil {
+				rp.recoveryStopOnce.Do(func() { close(rp.recoveryStop) })
+			}
 		case len(armedSources) == 0:
 			// Nothing armed: every worker's Stop call failed BEFORE setting
 			// w.stop (the only such path is acquireProcessingLock losing to
@@ -528,6 +536,14 @@ func (s *Service) stopRunnablePipeline(ctx context.Context, rp *runnablePipeline
 			// teardown after arming - see Worker.Stopping's doc - which is
 			// reported but needs neither rollback nor escalation), but there
 			// is nothing more to do here.
+			//
+			// Except for the same race as in the first case: a worker that had
+			// already failed arms just as well, and the cleanup goroutine may
+			// be past its look at the marker. The stop stands, so cancel the
+			// restart recovery may be about to wait for.
+			if rp.recoveryStop != nil {
+				rp.recoveryStopOnce.Do(func() { close(rp.recoveryStop) })
+			}
 		}
 		return cerrors.Join(errs...)
 	case true:
@@ -1917,6 +1933,10 @@ func (s *Service) StartWithBackoff(ctx context.Context, rp *runnablePipeline) er
 	case <-ctx.Done():
 		return ctx.Err()
 	case <-rp.recoveryStop:
+		if s.isGracefulShutdown.Load() {
+			// (StopAll stops through the same path as a user stop)
+			return errGracefulShutdownDuringRecovery
+		}
 		return errUserStopDuringRecovery
 	case <-time.After(duration):
 	}
